@@ -44,7 +44,7 @@ func extRender[V any](cd extCodec[V], v V) string {
 	return t.String()
 }
 
-// c17.X.m: Marshal(v); if ok, Unmarshal of the result into a receiver holding prev.  The caller
+// c17.X.m: Marshal(v) — after earlier Marshal results have been overwritten by the caller —; if ok, Unmarshal of the result into a receiver holding prev.  The caller
 // then keeps the decoded value (a struct copy of the receiver, as `got := recv` does) while the SAME
 // receiver decodes the encoding of the next value of the stream; the last observation token says
 // whether the kept value still reports what it reported when it was decoded.
@@ -57,6 +57,15 @@ func extGenMarshal[V any](cd extCodec[V]) func(x *Ctx) {
 				cd.write(&c.I, v)
 				cd.write(&c.I, prev)
 				cd.write(&c.I, next)
+				// Earlier Marshal calls of the stream (of prev and of v itself): what they returned was the
+				// caller's, and the caller has used it — overwritten it up to its capacity (an extension
+				// payload is copied into the header and its slice reused, or appended to).  The Marshal
+				// under test must emit the layout of v all the same.
+				try(func() {
+					e1, _ := cd.marshal(prev)
+					e2, _ := cd.marshal(v)
+					scribbleAll(e1, e2)
+				})
 				var out []byte
 				var err error
 				if try(func() { out, err = cd.marshal(v) }) {
